@@ -6,7 +6,7 @@
 From Coq Require Import String.
 From Coq Require Import List NArith Bool.
 From Sia Require Import Codec.Canonical Codec.PolicyWire Codec.PolicyBounds Prim.Tok Codec.Schema Codec.Shape Codec.Irregular Gen.Schemas Codec.Oblig.
-From Sia Require Prim.Result Ledger.Types Ledger.Mid Ledger.Validate Ledger.Apply Ledger.VApply.
+From Sia Require Prim.Result Ledger.Types Ledger.Mid Ledger.Validate Ledger.Apply Ledger.VApply Ledger.Marks1 Ledger.Wk2.
 Import ListNotations.
 
 Theorem C10_slice_alloc_bound : forall recog s b l r,
@@ -46,3 +46,14 @@ Theorem C10_accepted_transactions_apply : forall H net vt pt se sd s b,
                 Ledger.Apply.fold_r (Ledger.Apply.apply_txn2 net s) (Ledger.Types.b_v2txns b) m1 = Prim.Result.Ok m2.
 Proof. intros H net vt pt se sd s b V. destruct (Ledger.VApply.accepted_transactions_apply H net vt pt se sd s b V) as (m1 & m2 & _ & A1 & _ & A2). exists m1, m2. split; assumption. Qed.
 Print Assumptions C10_accepted_transactions_apply.
+
+(* the whole of ApplyBlock: an accepted block is applied -- transactions, miner payouts, Foundation subsidy, expiring v1
+   contracts -- with no error and no panic, provided its IDs name elements of one kind only (what the ID derivation, C12,
+   delivers: then the MidState's shared slot map stays consistent and no record runs outside its slice) and the network's
+   Foundation subsidy is computable at this height (a condition on the network parameters alone) *)
+Theorem C10_accepted_block_applies : forall (kind_of : Ledger.Types.id -> Ledger.Marks1.kind) H net vt pt se sd s b,
+  Ledger.Apply.validate_block H net vt pt se sd s b = Prim.Result.Ok tt -> Ledger.Wk2.KindsB kind_of b ->
+  (exists o, Ledger.Validate.foundation_subsidy net s = Prim.Result.Ok o) ->
+  exists s' m, Ledger.Apply.apply_block net s b = Prim.Result.Ok (s', m).
+Proof. exact Ledger.Wk2.accepted_block_applies. Qed.
+Print Assumptions C10_accepted_block_applies.
